@@ -406,9 +406,31 @@ pub fn huge_history(kind: Kind, variant: usize, rng: &mut Rng) -> (Cfg, Vec<Op>,
             ops.push(Op::Get(k - 7, k % 2 == 0));
         }
     }
-    // read-only calls right at the least-recent end of a full, large list
+    // read-only calls right at the least-recent end of a full, large list: the keys sitting at
+    // the ends of every list are taken from the reference model's state at this point
     ops.push(Op::Len);
-    for k in [0u32, 1, 2, n - total as u32, n - total as u32 + 1, n - 1] {
+    let mut ends: Vec<u32> = vec![];
+    {
+        let mut m = crate::model::Model::new(&cfg);
+        for (i, op) in ops.iter().enumerate() {
+            let outs = m.step(op, (i as u64 + 1) * 64, &crate::model::NoEst);
+            if let Some(o) = outs.into_iter().next() {
+                m.st = o.st;
+            }
+        }
+        for l in &m.st.lists {
+            if let Some(e) = l.last() {
+                ends.push(e.0);
+            }
+            if l.len() >= 2 {
+                ends.push(l[l.len() - 2].0);
+            }
+            if let Some(e) = l.first() {
+                ends.push(e.0);
+            }
+        }
+    }
+    for k in ends.into_iter().chain([0u32, 1, 2, n - total as u32, n - total as u32 + 1, n - 1]) {
         ops.push(Op::PeekMut(k, false, false));
         ops.push(Op::Peek(k, true));
         ops.push(Op::Contains(k, false));
